@@ -351,6 +351,31 @@ K['k18_cold_load_then_warm_store_wait_vmcnt1'] = PRO + """
   s_endpgm
 """
 
+# work-groups with an even id meet at a barrier; work-groups with an odd id, resident on the other SIMDs of the same
+# compute unit, issue a long run of s_nop (one scheduler-evaluated instruction per cycle and wavefront) meanwhile, so
+# that whenever the barrier is released the scheduler is evaluating other work-groups' instructions in the same cycle
+K['k19_barrier_release_while_neighbour_groups_issue_nops'] = PRO + """
+  s_waitcnt lgkmcnt(0)
+  s_and_b32 s7, s2, 1
+  s_cmp_eq_u32 s7, 0
+  s_cbranch_scc1 L_EVEN
+""" + "  s_nop 0\n" * 160 + """
+  s_branch L_STORE
+L_EVEN:
+  v_lshlrev_b32 v3, 2, v0
+  ds_write_b32 v3, v0
+  s_waitcnt lgkmcnt(0)
+  s_barrier
+  s_nop 0
+  s_barrier
+L_STORE:
+""" + gaddr('v7','v8','s4','s5') + """
+  v_add_u32 v6, vcc, 9, v0
+  flat_store_dword v[7:8], v6
+  s_waitcnt vmcnt(0)
+  s_endpgm
+"""
+
 K['k15_uncoalesced_64_lines_per_load'] = PRO + """
   s_load_dwordx2 s[8:9], s[0:1], 0x0
   v_and_b32 v4, 63, v0
